@@ -169,4 +169,35 @@ inductive Reach : PState → Prop where
   | init : Reach PState.init
   | step {s t : PState} : Reach s → Step s t → Reach t
 
+/-! ### snapshots (for checking real executions against the invariant)
+
+The end-to-end driver samples, at linearization points of the real pool (entry of
+`worker.startContainer`, `worker.updateRunning`, `Pool.updateWorker`, all under `wp.mtx`), every
+worker's bookkeeping together with the stub cloud's process table of its instance. `snapOK` is the
+part of the L3 invariant that is visible in such a snapshot; `C14_snapshot_check_sound`
+(Props/C14_L3.lean) shows that every reachable model state passes it. -/
+
+structure SnapW where
+  id : Nat
+  state : WState
+  starting : List Uuid
+  running : List Uuid
+  procs : List Uuid        -- live crunch-run processes on the worker's instance
+deriving Repr, Inhabited
+
+def SnapW.ok (w : SnapW) : Bool :=
+  -- an Idle worker tracks nothing
+  (w.state != .idle || (w.starting.isEmpty && w.running.isEmpty)) &&
+  -- on an Idle/Running (hence probed) worker every process is claimed
+  (!(w.state == .idle || w.state == .running) ||
+    w.procs.all (fun c => w.running.contains c || w.starting.contains c))
+
+def snapOK (ws : List SnapW) : Bool :=
+  ws.all SnapW.ok &&
+  -- mutual exclusion between the instances in the snapshot
+  ws.all (fun a => ws.all (fun b => a.id == b.id || a.procs.all (fun c => !b.procs.contains c)))
+
+def PState.snap (s : PState) (dom : List Nat) : List SnapW :=
+  dom.filterMap (fun i => (s.wk i).map (fun w => ⟨i, w.state, w.starting, w.running, s.procs i⟩))
+
 end ArvVerif.C14
